@@ -198,6 +198,9 @@ func genC15(t *rapid.T) c15Scenario {
 			r.BodyLen = rapid.SampledFrom([]int{0, 1, 100, 5000, 65536}).Draw(t, "bodyLen")
 		case "GET":
 			r.Cond = rapid.SampledFrom([]string{"", "", "", "inm-match", "inm-miss", "inm-star", "ims-after", "ims-before", "range-prefix", "range-suffix", "range-open"}).Draw(t, "cond")
+		case "HEAD":
+			// HEAD has entries of its own and is stored like GET
+			r.Cond = rapid.SampledFrom([]string{"", "", "inm-match", "inm-star", "ims-after", "inm-miss", "range-prefix"}).Draw(t, "cond")
 		}
 		r.AE = rapid.SampledFrom([]string{"-", "gzip", "br", "gzip, br", "identity"}).Draw(t, "ae")
 		sc.Reqs = append(sc.Reqs, r)
@@ -421,8 +424,8 @@ func execC15(sc c15Scenario) *vstat.Outcome {
 			}
 			// conditional headers are withheld only on a cold cacheable fetch
 			if xs == "fetching" {
-				if l.Header.Get("If-None-Match") != "" || l.Header.Get("If-Modified-Since") != "" {
-					out.Violate("C15", "conditional-forwarded", "%s: a fetching request forwarded its conditional headers to the upstream", what)
+				if l.Header.Get("If-None-Match") != "" || l.Header.Get("If-Modified-Since") != "" || l.Header.Get("Range") != "" {
+					out.Violate("C15", "conditional-forwarded", "%s: a fetching request forwarded its conditional / Range headers to the upstream (If-None-Match %q, If-Modified-Since %q, Range %q)", what, l.Header.Get("If-None-Match"), l.Header.Get("If-Modified-Since"), l.Header.Get("Range"))
 				}
 			} else if r.Cond != "" && strings.HasPrefix(r.Cond, "i") {
 				if l.Header.Get("If-None-Match") == "" && l.Header.Get("If-Modified-Since") == "" {
@@ -456,6 +459,12 @@ func execC15(sc c15Scenario) *vstat.Outcome {
 					out.Violate("C15", "plain-get", "%s: expected the full 200 resource, got status %d with %d bytes (X-Status %q, Content-Range %q)", what, resp.Code, len(resp.Body), xs, resp.Header.Get("Content-Range"))
 				}
 			}
+		}
+		if r.Method == "HEAD" && r.Cond == "" && resp.Code != 200 {
+			out.Violate("C15", "plain-head", "%s: a HEAD without validators or Range got status %d (X-Status %q): an answer provoked by another client's conditional headers was stored", what, resp.Code, xs)
+		}
+		if r.Method == "HEAD" && r.Cond != "" {
+			condSeen = true
 		}
 		if resp.Code < 400 {
 			for _, name := range []string{"X-Resp-Added", "X-Served-By"} {
